@@ -47,9 +47,9 @@ P = {
  "C12": dict(tech="Coq proof (mirror invariant preserved by every operation) + correspondence over operation histories + scan oracle",
              text="Theorem: graph-level types mirror the Input/Output children after construction and after infer_types (also when it raises), by induction over operation lists.",
              note="", ref="6 C12"),
- "C13": dict(tech="Coq proof (from_dict . to_dict round trip for graphs of any depth; keys = documented fields) + alias-matrix / mutate-and-compare oracle on the code",
-             text="Theorem c13_round_trip: from_dict(to_dict n) is the same node with identical value types at every depth; second round trip is the identity; keys are the documented fields plus type. Independence (no shared mutable state) is not expressible in an immutable Gallina model and is decided on the code by the alias matrix.",
-             note="aliasing proved on the tagged model; code tied behaviourally", ref="6 C13"),
+ "C13": dict(tech="Coq proof (from_dict . to_dict round trip for graphs of any depth; keys = documented fields; object-identity model of to_dict: every identity of the dictionary is fresh, independence under every in-place mutation) + value and sharing-pattern correspondence + alias-matrix / mutate-and-compare oracle on the code",
+             text="Theorem c13_round_trip: from_dict(to_dict n) is the same node with identical value types at every depth; second round trip is the identity; keys are the documented fields plus type. Independence: on the object-identity model (Model/Alias.v: dataclasses.asdict + class-specific entries with an allocator of fresh identities) c13_dict_is_fresh / c13_shares_nothing / c13_dict_unaffected_by_graph_mutation / c13_graph_unaffected_by_dict_mutation / c13_two_dicts_independent: no in-place change of any object (array memory, list, dict, node) of the graph is visible in the dictionary and vice versa; the model is tied to the code by comparing the sharing pattern (first-occurrence numbering of id() / memory owner) of g and g.to_dict() with the pattern the model computes.",
+             note="identity model tied behaviourally (sharing pattern); graphs with node objects inside metadata are decided by the oracle only", ref="6 C13, 11.9"),
  "C14": dict(tech="Coq proof (inference respects the relation serialisation introduces; commutes with file and dictionary round trips) + interleaving correspondence",
              text="Theorems c14_infer_commutes_with_file / _with_dict / c14_infer_respects_relation: inference on the graph read back (or rebuilt from its dictionary) is related child by child to inference on the original and the type check gives the same verdict; Conv1d/Conv2d regain their types from the fields inference left behind; all interleavings up to length 4 run on the code.",
              note="", ref="6 C14"),
@@ -59,8 +59,8 @@ P = {
  "C16": dict(tech="Coq proof (metadata round trip; write commutes with stripping metadata; types ignore metadata) + tree-diff oracle",
              text="Theorems: metadata trees are carried by write/read; everything outside */metadata is independent of metadata; constructors, check and inference ignore it.",
              note="", ref="6 C16"),
- "C17": dict(tech="Coq proof (observers read only types / dictionary; filters return sub-lists) + deep-snapshot oracle incl. failing observers",
-             text="Theorems: the observers of the model depend only on what they should read (types only, dictionary only, never the cache) and return sub-lists; mutation is not expressible in an immutable model, so the frame condition on the code is decided by deep snapshots (bytes, node ids, order) around each observer, failing paths included.",
+ "C17": dict(tech="Coq proof (observers read only types / dictionary; filters return sub-lists; to_dict allocates only; separate reads are relocations with disjoint identities) + deep-snapshot oracle incl. failing observers",
+             text="Theorems: the observers of the model depend only on what they should read (types only, dictionary only, never the cache) and return sub-lists; on the object-identity model (Model/Alias.v) to_dict returns only newly allocated objects (c17_to_dict_allocates_only) and two separate reads are independent under every in-place mutation (c17_separate_reads_independent; tied to the code by the C13Reads sharing-pattern cases of the C13 check); the frame condition of the remaining observers on the code is decided by deep snapshots (bytes, node ids, order) around each observer, failing paths included.",
              note="frame condition of CPython code tied behaviourally", ref="6 C17"),
  "C18": dict(tech="Coq proof (closed world over regenerated whitelist table; strict field binding) + type-string/field mutation sweep",
              text="Theorems: dict2node succeeds only for whitelisted names bound to their own dataclass (checked by computation on the table regenerated from the source); unknown keys and missing mandatory fields raise.",
